@@ -120,9 +120,18 @@ def generate(rng, tier):
     return cs
 
 
+def _lay(values, role, case):
+    """The logical element sequence `values` as the array given to verde: 2-D (2, n/2) when n is even, in a memory layout chosen
+    per ROLE (coordinates, data and weights each get their own: C, Fortran-ordered or strided), read-only."""
+    n = len(values)
+    shape = [2, n // 2] if (n % 2 == 0 and n >= 4) else [n]
+    return C.mkarr(values, shape, role + case["op"][:80])
+
+
 def _fit(case):
     a = case["args"]
     fn = case["fn"]
+    L = lambda v, role: _lay(v, role, case)  # noqa: E731
     with warnings.catch_warnings():
         warnings.simplefilter("ignore")
         if fn == "lstsq":
@@ -131,16 +140,17 @@ def _fit(case):
             return {"params": [float(v) for v in p]}
         if fn == "trend":
             es, ns, d, w, deg, qe, qn = a
-            t = vd.Trend(deg).fit((np.array(es), np.array(ns)), np.array(d), None if w is None else np.array(w))
+            t = vd.Trend(deg).fit((L(es, "e"), L(ns, "n")), L(d, "d"), None if w is None else L(w, "w"))
             return {"params": [float(v) for v in t.coef_], "pred": [float(v) for v in t.predict((np.array(qe), np.array(qn)))]}
         es, ns, data, w, damping, force, poisson, mindist = a
-        coords = (np.array(es), np.array(ns))
+        coords = (L(es, "e"), L(ns, "n"))
         fc = None if force is None else (np.array(force[0]), np.array(force[1]))
         if fn == "spline":
-            g = vd.Spline(mindist=mindist, damping=damping, force_coords=fc).fit(coords, np.array(data[0]), None if w is None else np.array(w[0]))
+            g = vd.Spline(mindist=mindist, damping=damping, force_coords=fc).fit(coords, L(data[0], "d"), None if w is None else L(w[0], "w"))
         else:
             g = vd.VectorSpline2D(poisson=poisson, mindist=mindist, damping=damping, force_coords=fc)
-            g.fit(coords, tuple(np.array(x) for x in data), None if w is None else tuple(np.array(x) for x in w))
+            g.fit(coords, tuple(L(x, f"d{i}") for i, x in enumerate(data)),
+                  None if w is None else tuple(L(x, f"w{i}") for i, x in enumerate(w)))
         return {"params": [float(v) for v in g.force_]}
 
 
